@@ -147,9 +147,7 @@ func runC25(c *Ctx) {
 			var k0 int64 = -1
 			step := int64(0)
 			for _, e := range phi.Edges {
-				if k, isC := constInt(e); isC {
-					k0 = k
-				} else if bo, isB := e.(*ssa.BinOp); isB && bo.X == ssa.Value(phi) {
+				if bo, isB := e.(*ssa.BinOp); isB && bo.X == ssa.Value(phi) {
 					if k, isC := constInt(bo.Y); isC {
 						if bo.Op == token.SUB {
 							step = -k
@@ -157,6 +155,8 @@ func runC25(c *Ctx) {
 							step = k
 						}
 					}
+				} else if k, okk := newEnv().eval(e); okk {
+					k0 = k // initial index (constant expression, e.g. 4+7 or len(c.iv)-1)
 				}
 			}
 			// which indices are visited: evaluate the loop condition for i = k0, k0+step, …
